@@ -31,7 +31,9 @@ fn main() {
         }
     }
     let mut out: Box<dyn Write> = match out_path {
-        Some(p) => Box::new(std::io::BufWriter::new(std::fs::File::create(p).unwrap())),
+        // unbuffered: every kind writes one complete case block per write, so whatever was written
+        // before a crash of the process (stack overflow, abort) is a sequence of complete blocks
+        Some(p) => Box::new(std::fs::File::create(p).unwrap()),
         None => Box::new(std::io::BufWriter::new(std::io::stdout())),
     };
     if !dispatch(kind.as_str(), &ctx, &mut out) {
